@@ -16,6 +16,12 @@
 //   rscache <s1> <s2> <n> <t1..tn> -> `<pose> | <pose> | …`            the caching overload of ReedsSheppStateSpace::interpolate, as icache
 //   rsend <s1> <s2>      -> `<x> <y> <yaw>`                                interpolate(from, reedsShepp(s1,s2), 1.0, out)  (protected; derived class)
 //   both <s1> <s2>       -> `rs=<d> rsrev=<d> dub=<d> dubrev=<d>`          RS distance both ways, Dubins distance (same rho) both ways
+// Aliasing (round 10): the interpolating ops accept a suffix on the op token, `interp@f` / `interp@t` (likewise icache, endp, ipath,
+// rsinterp, rscache, rsend, rsipath, owinterp[r], vinterp, vointerp[r]): the OUTPUT state passed to the real code IS the `from` state
+// (`@f`) resp. the `to` state (`@t`) instead of a separate scratch state, as StateSpace::interpolate allows ("overlapping memory").
+// For the caching overloads from/to are re-set to <s1>/<s2> before every call of a sequence (firstTime / path are kept).
+//   ipath <s1> <s2> <t>   -> `<x> <y> <yaw>` | `nopath`     interpolate(from, <the path interpolate() stores>, t, out, rho)  (path overload, any t)
+//   rsipath <s1> <s2> <t> -> `<x> <y> <yaw>` | `nopath`     interpolate(from, reedsShepp(s1,s2), t, out)
 // stdout is flushed after every line so that, if the process dies (sanitizer report, an `assert` of the
 // inline header code), the check reads off which operation did it.  The cached libompl is built with
 // -DNDEBUG, so the solvers' own asserts are compiled out: the check's oracle evaluates those identities.
@@ -112,6 +118,31 @@ static void out(const std::string &s)
     std::cout << s << std::endl;
 }
 
+// `op@f` / `op@t`: splits the alias suffix off the op token; returns false for an unknown suffix
+static bool splitAlias(std::string &op, char &alias)
+{
+    alias = 'n';
+    auto at = op.find('@');
+    if (at == std::string::npos)
+        return true;
+    std::string a = op.substr(at + 1);
+    op.erase(at);
+    if (a != "f" && a != "t")
+        return false;
+    alias = a[0];
+    return true;
+}
+
+static bool aliasable(const std::string &op)
+{
+    static const char *ops[] = {"interp", "icache", "endp", "ipath", "rsinterp", "rscache", "rsend", "rsipath", "owinterp", "owinterpr",
+                                "vinterp", "vointerp", "vointerpr"};
+    for (auto o : ops)
+        if (op == o)
+            return true;
+    return false;
+}
+
 // ---- real motion validators over a recording validity checker -------------------------------------------------------
 // `<op> <2|3> <s1> <s2> <bound>`: valid iff coordinate `axis` of the asked state is <= bound.  Prints the verdict, nd, the
 // longest valid segment length, every asked state in call order, lastValid (fraction and state) and the counter increments.
@@ -176,7 +207,14 @@ static int runDubins(double rho, bool sym, double lo, double hi)
         auto t = vp::tokens(line);
         if (t.empty())
             continue;
-        const std::string &op = t[0];
+        std::string op = t[0];
+        char alias;
+        if (!splitAlias(op, alias) || (alias != 'n' && !aliasable(op)))
+        {
+            out("bad-op");
+            continue;
+        }
+        auto *dst = alias == 'f' ? s1 : alias == 't' ? s2 : o;
         if ((op == "dmv" && t.size() == 9 || op == "dmvr" && t.size() == 10) && (t[1] == "2" || t[1] == "3") && setPose(s1, t, 2) && setPose(s2, t, 5) &&
             vp::parseBits(t[8]))
         {
@@ -203,8 +241,8 @@ static int runDubins(double rho, bool sym, double lo, double hi)
                 out("none");
                 continue;
             }
-            sp.interpolate(s1, s2, tt, o);
-            out(showPose(o));
+            sp.interpolate(s1, s2, tt, dst);
+            out(showPose(dst));
         }
         else if (op == "icache" && t.size() >= 8 && setPose(s1, t, 1) && setPose(s2, t, 4) && vp::parseNat(t[7]) &&
                  t.size() == 8 + *vp::parseNat(t[7]))
@@ -221,13 +259,15 @@ static int runDubins(double rho, bool sym, double lo, double hi)
                     ok = false;
                     break;
                 }
-                sp.interpolate(s1, s2, *tt, first, path, o);
+                setPose(s1, t, 1);  // from / to are restored before every call (the output may alias one of them)
+                setPose(s2, t, 4);
+                sp.interpolate(s1, s2, *tt, first, path, dst);
                 if (!first && isDefault(path))
                 {
                     res += (res.empty() ? "" : " | ") + std::string("nopath");
                     break;
                 }
-                res += (res.empty() ? "" : " | ") + showPose(o);
+                res += (res.empty() ? "" : " | ") + showPose(dst);
             }
             out(ok ? res : "bad-op");
         }
@@ -241,8 +281,21 @@ static int runDubins(double rho, bool sym, double lo, double hi)
                 out("nopath");
                 continue;
             }
-            sp.interpolate(s1, path, 1.0, o, rho);
-            out(std::string("rev=") + (path.reverse_ ? "1 " : "0 ") + showPath(path) + " | " + showPose(o));
+            sp.interpolate(s1, path, 1.0, dst, rho);
+            out(std::string("rev=") + (path.reverse_ ? "1 " : "0 ") + showPath(path) + " | " + showPose(dst));
+        }
+        else if (op == "ipath" && t.size() == 8 && setPose(s1, t, 1) && setPose(s2, t, 4) && vp::parseBits(t[7]))
+        {
+            bool first = true;
+            DSS::DubinsPath path;
+            sp.interpolate(s1, s2, 0.5, first, path, o);  // stores the chosen path
+            if (isDefault(path))
+            {
+                out("nopath");
+                continue;
+            }
+            sp.interpolate(s1, path, *vp::parseBits(t[7]), dst, rho);
+            out(showPose(dst));
         }
         else
             out("bad-op");
@@ -279,7 +332,14 @@ static int runRS(double rho, double lo, double hi)
         auto t = vp::tokens(line);
         if (t.empty())
             continue;
-        const std::string &op = t[0];
+        std::string op = t[0];
+        char alias;
+        if (!splitAlias(op, alias) || (alias != 'n' && !aliasable(op)))
+        {
+            out("bad-op");
+            continue;
+        }
+        auto *dst = alias == 'f' ? s1 : alias == 't' ? s2 : o;
         if ((op == "rsmv" && t.size() == 9 || op == "rsmvr" && t.size() == 10) && (t[1] == "2" || t[1] == "3") && setPose(s1, t, 2) && setPose(s2, t, 5) &&
             vp::parseBits(t[8]))
         {
@@ -310,8 +370,8 @@ static int runRS(double rho, double lo, double hi)
                 out("none");
                 continue;
             }
-            sp.interpolate(s1, s2, tt, o);
-            out(showPose(o));
+            sp.interpolate(s1, s2, tt, dst);
+            out(showPose(dst));
         }
         else if (op == "rscache" && t.size() >= 8 && setPose(s1, t, 1) && setPose(s2, t, 4) && vp::parseNat(t[7]) &&
                  t.size() == 8 + *vp::parseNat(t[7]))
@@ -328,13 +388,15 @@ static int runRS(double rho, double lo, double hi)
                     ok = false;
                     break;
                 }
-                sp.interpolate(s1, s2, *tt, first, path, o);
+                setPose(s1, t, 1);  // from / to are restored before every call (the output may alias one of them)
+                setPose(s2, t, 4);
+                sp.interpolate(s1, s2, *tt, first, path, dst);
                 if (!first && rsDefault(path))
                 {
                     res += (res.empty() ? "" : " | ") + std::string("nopath");
                     break;
                 }
-                res += (res.empty() ? "" : " | ") + showPose(o);
+                res += (res.empty() ? "" : " | ") + showPose(dst);
             }
             out(ok ? res : "bad-op");
         }
@@ -346,8 +408,19 @@ static int runRS(double rho, double lo, double hi)
                 out("nopath");
                 continue;
             }
-            sp.interpPath(s1, p, 1.0, o);
-            out(showPose(o));
+            sp.interpPath(s1, p, 1.0, dst);
+            out(showPose(dst));
+        }
+        else if (op == "rsipath" && t.size() == 8 && setPose(s1, t, 1) && setPose(s2, t, 4) && vp::parseBits(t[7]))
+        {
+            auto p = sp.reedsShepp(s1, s2);
+            if (rsDefault(p))
+            {
+                out("nopath");
+                continue;
+            }
+            sp.interpPath(s1, p, *vp::parseBits(t[7]), dst);
+            out(showPose(dst));
         }
         else if (op == "both" && t.size() == 7 && setPose(s1, t, 1) && setPose(s2, t, 4))
         {
@@ -417,7 +490,14 @@ static int runOwen(double rho, double pitch, double lo, double hi)
         auto t = vp::tokens(line);
         if (t.empty())
             continue;
-        const std::string &op = t[0];
+        std::string op = t[0];
+        char alias;
+        if (!splitAlias(op, alias) || (alias != 'n' && !aliasable(op)))
+        {
+            out("bad-op");
+            continue;
+        }
+        auto *dst = alias == 'f' ? s1 : alias == 't' ? s2 : o;
         bool pathOp = (op == "owpath" && t.size() == 9) || (op == "owpathr" && t.size() == 10 && vp::parseBits(t[9]));
         bool interpOp = (op == "owinterp" && t.size() == 10) || (op == "owinterpr" && t.size() == 11 && vp::parseBits(t[10]));
         if (pathOp && setPose4(s1, t, 1) && setPose4(s2, t, 5))
@@ -475,8 +555,8 @@ static int runOwen(double rho, double pitch, double lo, double hi)
                 out("nopath");
                 continue;
             }
-            sp.interpolate(s1, s2, *vp::parseBits(t[9]), o);
-            out(vp::bits((*o)[0]) + " " + vp::bits((*o)[1]) + " " + vp::bits((*o)[2]) + " " + vp::bits(o->yaw()));
+            sp.interpolate(s1, s2, *vp::parseBits(t[9]), dst);
+            out(vp::bits((*dst)[0]) + " " + vp::bits((*dst)[1]) + " " + vp::bits((*dst)[2]) + " " + vp::bits(dst->yaw()));
         }
         else
             out("bad-op");
@@ -541,7 +621,14 @@ static int runVana(double rho, double pitch, double lo, double hi)
         auto t = vp::tokens(line);
         if (t.empty())
             continue;
-        const std::string &op = t[0];
+        std::string op = t[0];
+        char alias;
+        if (!splitAlias(op, alias) || (alias != 'n' && !aliasable(op)))
+        {
+            out("bad-op");
+            continue;
+        }
+        auto *dst = alias == 'f' ? s1 : alias == 't' ? s2 : o;
         if ((op == "vmv" && t.size() == 13 || op == "vmvr" && t.size() == 14) && (t[1] == "2" || t[1] == "3") && setPose5(s1, t, 2) && setPose5(s2, t, 7) &&
             vp::parseBits(t[12]))
         {
@@ -562,8 +649,8 @@ static int runVana(double rho, double pitch, double lo, double hi)
         }
         else if (op == "vinterp" && t.size() == 12 && setPose5(s1, t, 1) && setPose5(s2, t, 6) && vp::parseBits(t[11]))
         {
-            sp.interpolate(s1, s2, *vp::parseBits(t[11]), o);
-            out(vp::bits((*o)[0]) + " " + vp::bits((*o)[1]) + " " + vp::bits((*o)[2]) + " " + vp::bits(o->pitch()) + " " + vp::bits(o->yaw()));
+            sp.interpolate(s1, s2, *vp::parseBits(t[11]), dst);
+            out(vp::bits((*dst)[0]) + " " + vp::bits((*dst)[1]) + " " + vp::bits((*dst)[2]) + " " + vp::bits(dst->pitch()) + " " + vp::bits(dst->yaw()));
         }
         else
             out("bad-op");
@@ -630,7 +717,14 @@ static int runVanaOwen(double rho, double pitch, double lo, double hi)
         auto t = vp::tokens(line);
         if (t.empty())
             continue;
-        const std::string &op = t[0];
+        std::string op = t[0];
+        char alias;
+        if (!splitAlias(op, alias) || (alias != 'n' && !aliasable(op)))
+        {
+            out("bad-op");
+            continue;
+        }
+        auto *dst = alias == 'f' ? s1 : alias == 't' ? s2 : o;
         if ((op == "vomv" && t.size() == 13 || op == "vomvr" && t.size() > 14) && (t[1] == "2" || t[1] == "3") && setPose5o(s1, t, 2) && setPose5o(s2, t, 7) &&
             vp::parseBits(t[12]))
         {
@@ -655,8 +749,8 @@ static int runVanaOwen(double rho, double pitch, double lo, double hi)
         else if ((op == "vointerp" && t.size() == 12 || op == "vointerpr" && t.size() > 12) && setPose5o(s1, t, 1) && setPose5o(s2, t, 6) &&
                  vp::parseBits(t[11]))
         {
-            sp.interpolate(s1, s2, *vp::parseBits(t[11]), o);
-            out(vp::bits((*o)[0]) + " " + vp::bits((*o)[1]) + " " + vp::bits((*o)[2]) + " " + vp::bits(o->pitch()) + " " + vp::bits(o->yaw()));
+            sp.interpolate(s1, s2, *vp::parseBits(t[11]), dst);
+            out(vp::bits((*dst)[0]) + " " + vp::bits((*dst)[1]) + " " + vp::bits((*dst)[2]) + " " + vp::bits(dst->pitch()) + " " + vp::bits(dst->yaw()));
         }
         else
             out("bad-op");
